@@ -31,6 +31,15 @@ func RangeItem(start, end, step int, spelling string, full bool) Item {
 	case "call":
 		pre = ""
 		r = fmt.Sprintf("t(\"lo\", %d):t(\"hi\", %d):t(\"st\", %d)", start, end, step)
+	case "const":
+		pre = fmt.Sprintf("const lo, hi, st = %d, %d, %d\n", start, end, step)
+		r = "lo:hi:st"
+	case "mixed": // every operand written differently: literal in parentheses, variable, unary/binary expression
+		pre = fmt.Sprintf("hi, one := %d, 1\n", end)
+		r = fmt.Sprintf("(%s):hi:%s*one", lit(start), lit(step))
+		if step < 0 {
+			r = fmt.Sprintf("(%s):hi:-(%d*one)", lit(start), -step)
+		}
 	}
 	// reference sequence (computed here: the Go side prints the literal expected list)
 	var seq []string
@@ -56,6 +65,9 @@ func RangeItem(start, end, step int, spelling string, full bool) Item {
 	if spelling == "var" || spelling == "expr" {
 		g.WriteString(pre + "_, _, _ = lo, hi, st\n")
 	}
+	if spelling == "mixed" {
+		g.WriteString(pre + "_, _ = hi, one\n")
+	}
 	emit := func(label, xcode, expect string) {
 		x.WriteString(xcode)
 		fmt.Fprintf(&x, "fmt.Println(\"  %s\", out)\n", label)
@@ -68,6 +80,10 @@ func RangeItem(start, end, step int, spelling string, full bool) Item {
 		emit("for-in", "{\n\tout, n := []int{}, 0\n\tfor i in "+r+" {\n\t"+fuse+"\t\tout = append(out, i)\n\t}\n\t_ = n\n", want)
 		x.WriteString("}\n")
 		emit("for-range", "{\n\tout, n := []int{}, 0\n\tfor i := range "+r+" {\n\t"+fuse+"\t\tout = append(out, i)\n\t}\n\t_ = n\n", want)
+		x.WriteString("}\n")
+		emit("for-range-assign", "{\n\tout, n := []int{}, 0\n\tvar i int\n\tfor i = range "+r+" {\n\t"+fuse+"\t\tout = append(out, i)\n\t}\n\t_ = n\n", want)
+		x.WriteString("}\n")
+		emit("for-arrow-continue", "{\n\tout, n := []int{}, 0\nL:\n\tfor i <- "+r+" {\n\t"+fuse+"\t\tif i < -100000 {\n\t\t\tcontinue L\n\t\t}\n\t\tout = append(out, i)\n\t}\n\t_ = n\n", want)
 		x.WriteString("}\n")
 		emit("for-range-count", "{\n\tout, n := 0, 0\n\tfor range "+r+" {\n\t"+fuse+"\t\tout++\n\t}\n\t_ = n\n", fmt.Sprint(wantN))
 		x.WriteString("}\n")
